@@ -463,3 +463,447 @@ Proof.
            | context [if ?c then _ else _] => destruct c
            end; inversion H; subst; rsimpl; assumption.
 Qed.
+
+(* ======================= level Y: references from sessions to proxy objects ======================= *)
+Ltac solve_ro :=
+  rsimpl; split;
+  [intros id' N; first [reflexivity | apply aget_aset_neq; assumption]
+  |first [reflexivity | split; [reflexivity | apply aget_aset_eq]]].
+
+Lemma run_objs : forall r q r' res, px_run r q = Some (r', res) ->
+  (forall id', id' <> rc_next r -> aget id' (rc_objs r') = aget id' (rc_objs r)) /\
+  match res with
+  | XOk id real => id = rc_next r /\ aget id (rc_objs r') = Some (mk_obj q real)
+  | XErr _ => rc_objs r' = rc_objs r
+  end.
+Proof.
+  intros r q r' res H. unfold px_run in H. destruct (xq_kind q).
+  - destruct (String.eqb (xq_group q) "").
+    + unfold tcp_run in H.
+      repeat match type of H with
+             | context [match ?c with _ => _ end] => destruct c
+             end; inversion H; subst; solve_ro.
+    + unfold group_listen in H. destruct (sget (xq_group q) (rc_groups r)) as [tg|].
+      * repeat match type of H with
+               | context [match ?c with _ => _ end] => destruct c
+               end; inversion H; subst; solve_ro.
+      * cbn [tg_lns empty_grp] in H.
+        repeat match type of H with
+               | context [match ?c with _ => _ end] => destruct c
+               end; inversion H; subst; solve_ro.
+  - unfold udp_run in H.
+    repeat match type of H with
+           | context [match ?c with _ => _ end] => destruct c
+           end; inversion H; subst; solve_ro.
+  - unfold other_run in H. inversion H; subst; solve_ro.
+Qed.
+
+Lemma close_objs : forall r id r', px_close r id = Some r' ->
+  (forall id', id' <> id -> aget id' (rc_objs r') = aget id' (rc_objs r)) /\
+  (forall o, aget id (rc_objs r) = Some o ->
+     exists o', aget id (rc_objs r') = Some o' /\ po_kind o' = po_kind o).
+Proof.
+  intros r id r' H. unfold px_close in H. destruct (aget id (rc_objs r)) as [o|] eqn:Ho; [|discriminate].
+  assert (G : forall r1, rc_objs r1 = rc_objs r ->
+            (forall id', id' <> id -> aget id' (rc_objs (mark_closed id o r1)) = aget id' (rc_objs r)) /\
+            (forall o0, Some o = Some o0 -> exists o', aget id (rc_objs (mark_closed id o r1)) = Some o' /\ po_kind o' = po_kind o0)).
+  { intros r1 E. rsimpl. rewrite E. split.
+    - intros id' N. apply aget_aset_neq. assumption.
+    - intros o0 X. inversion X; subst. rewrite aget_aset_eq. eexists. split; reflexivity. }
+  destruct (po_kind o) eqn:EK.
+  - destruct (po_closed o); [discriminate|]. destruct (String.eqb (po_group o) "").
+    + inversion H; subst. apply G. reflexivity.
+    + destruct (close_group_listener r (po_group o) id) as [r1|] eqn:E; [|discriminate]. inversion H; subst.
+      apply G. unfold close_group_listener in E.
+      repeat match type of E with
+             | context [match ?c with _ => _ end] => destruct c
+             end; inversion E; subst; reflexivity.
+  - destruct (po_closed o); inversion H; subst.
+    + split; [reflexivity|]. intros o0 X. inversion X; subst. exists o0. rewrite Ho. auto.
+    + apply G. reflexivity.
+  - destruct (po_closed o); [discriminate|]. inversion H; subst. apply G. reflexivity.
+Qed.
+
+Definition closable (r : rcst) (id : Z) (k : pkind) : Prop :=
+  exists o, aget id (rc_objs r) = Some o /\ po_kind o = k /\ (k <> KUdp -> po_closed o = false).
+
+Record LInv (s : srv) : Prop := {
+  l_ref : forall c ct n id k, aget c (s_ctls s) = Some ct -> sget n (c_proxies ct) = Some (id, k) ->
+            closable (s_rc s) id k;
+  l_uniq : forall c ct n id k c' ct' n' k',
+            aget c (s_ctls s) = Some ct -> sget n (c_proxies ct) = Some (id, k) ->
+            aget c' (s_ctls s) = Some ct' -> sget n' (c_proxies ct') = Some (id, k') -> c = c' /\ n = n'
+}.
+
+Definition ids_of (l : list (pname * (Z * pkind))) : list Z := map (fun e => fst (snd e)) l.
+
+Lemma in_sget_nodup : forall (l : list (pname * (Z * pkind))) n v,
+  NoDup (map fst l) -> In (n, v) l -> sget n l = Some v.
+Proof.
+  induction l as [|[m w] t IH]; simpl; intros n v ND H; [destruct H|].
+  inversion ND as [|? ? Hn Hr]; subst. destruct H as [E|H].
+  - inversion E; subst. rewrite String.eqb_refl. reflexivity.
+  - destruct (String.eqb_spec n m) as [->|N]; [|auto].
+    exfalso. apply Hn. apply in_map_iff. exists (m, v). auto.
+Qed.
+
+Lemma sget_in : forall (l : list (pname * (Z * pkind))) n v, sget n l = Some v -> In (n, v) l.
+Proof.
+  induction l as [|[m w] t IH]; simpl; intros n v H; [discriminate|].
+  destruct (String.eqb_spec n m) as [->|N]; [inversion H; auto|auto].
+Qed.
+
+Lemma ids_nodup : forall l,
+  NoDup (map fst l) ->
+  (forall n n' id k k', sget n l = Some (id, k) -> sget n' l = Some (id, k') -> n = n') ->
+  NoDup (ids_of l).
+Proof.
+  induction l as [|[n [id k]] t IH]; simpl; intros ND U; [constructor|].
+  inversion ND as [|? ? Hn Hr]; subst. constructor.
+  - intros X. unfold ids_of in X. apply in_map_iff in X. destruct X as [[n' [id' k']] [E X]]. simpl in E. subst id'.
+    assert (Nn : n' <> n) by (intros ->; apply Hn; apply in_map_iff; exists (n, (id, k')); auto).
+    assert (S1 : sget n' ((n, (id, k)) :: t) = Some (id, k')).
+    { simpl. destruct (String.eqb_spec n' n); [contradiction|]. apply in_sget_nodup; assumption. }
+    assert (S2 : sget n ((n, (id, k)) :: t) = Some (id, k)) by (simpl; rewrite String.eqb_refl; reflexivity).
+    apply Nn. symmetry. eapply U; eauto.
+  - apply IH; [assumption|]. intros m m' i a b H1 H2.
+    assert (Nm : m <> n) by (intros ->; apply Hn; apply sget_in in H1; apply in_map_iff; exists (n, (i, a)); auto).
+    assert (Nm' : m' <> n) by (intros ->; apply Hn; apply sget_in in H2; apply in_map_iff; exists (n, (i, b)); auto).
+    apply (U m m' i a b); simpl.
+    + destruct (String.eqb_spec m n); [contradiction|assumption].
+    + destruct (String.eqb_spec m' n); [contradiction|assumption].
+Qed.
+
+Lemma close_all_objs : forall l r names r' names',
+  close_all r names l = Some (r', names') ->
+  forall id', ~ In id' (ids_of l) -> aget id' (rc_objs r') = aget id' (rc_objs r).
+Proof.
+  induction l as [|[n [id k]] t IH]; simpl; intros r names r' names' H id' N; [inversion H; reflexivity|].
+  destruct (px_close r id) as [r1|] eqn:E; [|discriminate].
+  rewrite (IH _ _ _ _ H id'); [|tauto]. apply (close_objs _ _ _ E). intros ->. tauto.
+Qed.
+
+Lemma close_all_oinv : forall l r names r' names',
+  OInv r -> close_all r names l = Some (r', names') -> OInv r'.
+Proof.
+  induction l as [|[n [id k]] t IH]; simpl; intros r names r' names' HI H; [inversion H; subst; assumption|].
+  destruct (px_close r id) as [r1|] eqn:E; [|discriminate].
+  eapply IH; [|eassumption]. eapply oinv_close; eauto.
+Qed.
+
+Lemma close_all_progress : forall l r names,
+  OInv r -> NoDup (ids_of l) ->
+  (forall n id k, In (n, (id, k)) l -> closable r id k) ->
+  close_all r names l <> None.
+Proof.
+  induction l as [|[n [id k]] t IH]; simpl; intros r names HI ND HC; [discriminate|].
+  inversion ND as [|? ? Hn Hr]; subst.
+  destruct (HC n id k (or_introl eq_refl)) as [o [Ho [Hk Hcl]]].
+  destruct (px_close r id) as [r1|] eqn:E.
+  - apply IH; [eapply oinv_close; eauto|assumption|].
+    intros n' id' k' H. destruct (HC n' id' k' (or_intror H)) as [o' [Ho' X]].
+    assert (N : id' <> id).
+    { intros ->. apply Hn. unfold ids_of. apply in_map_iff. exists (n', (id, k')). auto. }
+    exists o'. rewrite (proj1 (close_objs _ _ _ E) id' N). auto.
+  - exfalso. eapply px_close_progress; [exact HI|exact Ho| |exact E]. rewrite Hk. assumption.
+Qed.
+
+Ltac ysimpl := cbn [s_rc s_names s_ctls c_proxies c_used snd fst].
+
+Lemma linv_same : forall s s',
+  s_ctls s' = s_ctls s -> (forall id k, closable (s_rc s) id k -> closable (s_rc s') id k) -> LInv s -> LInv s'.
+Proof.
+  intros s s' Ec Hc [R U]. constructor; rewrite Ec.
+  - intros. apply Hc. eauto.
+  - assumption.
+Qed.
+
+(* replacing session c's record by one with the same proxies *)
+Lemma linv_rollback : forall s c ct ct' r' names',
+  LInv s -> aget c (s_ctls s) = Some ct -> c_proxies ct' = c_proxies ct ->
+  (forall id k, closable (s_rc s) id k -> closable r' id k) ->
+  LInv {| s_rc := r'; s_names := names'; s_ctls := aset c ct' (s_ctls s) |}.
+Proof.
+  intros s c ct ct' r' names' [R U] Hc Ep Hcl.
+  assert (G : forall c0 ct0, aget c0 (aset c ct' (s_ctls s)) = Some ct0 ->
+                exists ct1, aget c0 (s_ctls s) = Some ct1 /\ c_proxies ct1 = c_proxies ct0).
+  { intros c0 ct0 H. destruct (Z.eq_dec c0 c) as [->|N].
+    - rewrite aget_aset_eq in H. inversion H; subst. exists ct. auto.
+    - rewrite aget_aset_neq in H by assumption. exists ct0. auto. }
+  constructor; ysimpl.
+  - intros c0 ct0 n id k H0 H1. destruct (G _ _ H0) as [ct1 [A B]]. rewrite <- B in H1. apply Hcl. eauto.
+  - intros c0 ct0 n id k c1 ct1 n' k' H0 H1 H2 H3.
+    destruct (G _ _ H0) as [x [A B]]. destruct (G _ _ H2) as [y [A' B']].
+    rewrite <- B in H1. rewrite <- B' in H3. eauto.
+Qed.
+
+Lemma closable_after_run : forall r q r' res, OInv r -> px_run r q = Some (r', res) ->
+  forall id k, closable r id k -> closable r' id k.
+Proof.
+  intros r q r' res HI H id k [o [Ho X]]. exists o. split; [|assumption].
+  rewrite (proj1 (run_objs _ _ _ _ H)); [assumption|]. pose proof (oi_fresh _ HI _ _ Ho). lia.
+Qed.
+
+Definition Full (maxp : Z) (s : srv) : Prop := YInv maxp s /\ OInv (s_rc s) /\ LInv s.
+
+Lemma full_step : forall maxp s o s' out, Full maxp s -> y_step maxp s o = Some (s', out) -> Full maxp s'.
+Proof.
+  intros maxp s o s' out [HY [HO HL]] H.
+  split; [eapply yinv_step; eauto|].
+  destruct o as [c|c q|c n|c|id|proto port|proto port]; cbn [y_step] in H.
+  - (* login *)
+    destruct (aget c (s_ctls s)) eqn:Ec; [discriminate|]. inversion H; subst. ysimpl. split; [assumption|].
+    destruct HL as [R U].
+    assert (G : forall c0 ct0, aget c0 (aset c {| c_proxies := []; c_used := 0 |} (s_ctls s)) = Some ct0 ->
+                 (c0 <> c /\ aget c0 (s_ctls s) = Some ct0) \/ c_proxies ct0 = []).
+    { intros c0 ct0 H0. destruct (Z.eq_dec c0 c) as [->|N].
+      - rewrite aget_aset_eq in H0. inversion H0; subst. right. reflexivity.
+      - rewrite aget_aset_neq in H0 by assumption. left. auto. }
+    constructor; ysimpl.
+    + intros c0 ct0 n id k H0 H1. destruct (G _ _ H0) as [[_ A]|A]; [eauto|rewrite A in H1; discriminate].
+    + intros c0 ct0 n id k c1 ct1 n' k' H0 H1 H2 H3.
+      destruct (G _ _ H0) as [[_ A]|A]; [|rewrite A in H1; discriminate].
+      destruct (G _ _ H2) as [[_ A']|A']; [|rewrite A' in H3; discriminate]. eauto.
+  - (* register *)
+    destruct (y_register maxp s c q) as [[s1 r]|] eqn:E; [|discriminate]. inversion H; subst. clear H.
+    unfold y_register in E. destruct (aget c (s_ctls s)) as [ct|] eqn:Ec; [|discriminate].
+    destruct ((0 <? maxp) && (maxp <? c_used ct + pweight (xq_kind q))); [inversion E; subst; auto|].
+    destruct (sget (xq_name q) (s_names s)) eqn:En.
+    { inversion E; subst. ysimpl. split; [assumption|]. eapply linv_rollback; eauto. }
+    destruct (px_run (s_rc s) q) as [[r' [id real|e]]|] eqn:ER; [| |discriminate].
+    + inversion E; subst. clear E. ysimpl. split; [eapply oinv_run; eauto|].
+      destruct (run_objs _ _ _ _ ER) as [Old [-> New]].
+      pose proof HL as [R U].
+      assert (Fresh : forall c0 ct0 n0 k0, aget c0 (s_ctls s) = Some ct0 ->
+                        sget n0 (c_proxies ct0) = Some (rc_next (s_rc s), k0) -> False).
+      { intros c0 ct0 n0 k0 A B. destruct (R _ _ _ _ _ A B) as [o [Ho _]].
+        pose proof (oi_fresh _ HO _ _ Ho). lia. }
+      set (ctn := {| c_proxies := sset (xq_name q) (rc_next (s_rc s), xq_kind q) (c_proxies ct);
+                     c_used := if 0 <? maxp then c_used ct + pweight (xq_kind q) else c_used ct |}).
+      assert (G : forall c0 ct0 n id k, aget c0 (aset c ctn (s_ctls s)) = Some ct0 -> sget n (c_proxies ct0) = Some (id, k) ->
+                   (c0 = c /\ n = xq_name q /\ id = rc_next (s_rc s) /\ k = xq_kind q) \/
+                   (exists ct1, aget c0 (s_ctls s) = Some ct1 /\ sget n (c_proxies ct1) = Some (id, k))).
+      { intros c0 ct0 n id k H0 H1. destruct (Z.eq_dec c0 c) as [->|N].
+        - rewrite aget_aset_eq in H0. inversion H0; subst. unfold ctn in H1. cbn [c_proxies] in H1.
+          destruct (String.eqb_spec n (xq_name q)) as [->|Nn].
+          + rewrite sget_sset_eq in H1. inversion H1; subst. left. auto.
+          + rewrite sget_sset_neq in H1 by assumption. right. exists ct. auto.
+        - rewrite aget_aset_neq in H0 by assumption. right. exists ct0. auto. }
+      constructor; ysimpl; fold ctn.
+      * intros c0 ct0 n id k H0 H1. destruct (G _ _ _ _ _ H0 H1) as [(-> & -> & -> & ->)|[ct1 [A B]]].
+        -- exists (mk_obj q real). split; [assumption|]. split; [reflexivity|]. intros _. reflexivity.
+        -- eapply closable_after_run; eauto.
+      * intros c0 ct0 n id k c1 ct1 n' k' H0 H1 H2 H3.
+        destruct (G _ _ _ _ _ H0 H1) as [(-> & -> & -> & ->)|[x [A B]]];
+          destruct (G _ _ _ _ _ H2 H3) as [(-> & -> & E1 & ->)|[y [A' B']]].
+        -- auto.
+        -- exfalso. eapply Fresh; eauto.
+        -- subst id. exfalso. eapply Fresh; eauto.
+        -- eauto.
+    + inversion E; subst. ysimpl. split; [eapply oinv_run; eauto|].
+      eapply linv_rollback; eauto. eapply closable_after_run; eauto.
+  - (* close *)
+    destruct (y_close maxp s c n) as [s1|] eqn:E; [|discriminate]. inversion H; subst. clear H.
+    unfold y_close in E. destruct (aget c (s_ctls s)) as [ct|] eqn:Ec; [|discriminate].
+    destruct (sget n (c_proxies ct)) as [[id k]|] eqn:Ep; [|inversion E; subst; auto].
+    destruct (px_close (s_rc s) id) as [r'|] eqn:EC; [|discriminate]. inversion E; subst. clear E. ysimpl.
+    split; [eapply oinv_close; eauto|]. pose proof HL as [R U].
+    set (ctn := {| c_proxies := sdel n (c_proxies ct); c_used := if 0 <? maxp then c_used ct - pweight k else c_used ct |}).
+    assert (G : forall c0 ct0 n0 id0 k0, aget c0 (aset c ctn (s_ctls s)) = Some ct0 -> sget n0 (c_proxies ct0) = Some (id0, k0) ->
+                 exists ct1, aget c0 (s_ctls s) = Some ct1 /\ sget n0 (c_proxies ct1) = Some (id0, k0) /\ (c0 = c -> n0 <> n)).
+    { intros c0 ct0 n0 id0 k0 H0 H1. destruct (Z.eq_dec c0 c) as [->|N].
+      - rewrite aget_aset_eq in H0. inversion H0; subst. unfold ctn in H1. cbn [c_proxies] in H1.
+        destruct (String.eqb_spec n0 n) as [->|Nn]; [rewrite sget_sdel_eq in H1; discriminate|].
+        rewrite sget_sdel_neq in H1 by assumption. exists ct. auto.
+      - rewrite aget_aset_neq in H0 by assumption. exists ct0. split; [assumption|]. split; [assumption|]. intros; contradiction. }
+    constructor; ysimpl; fold ctn.
+    + intros c0 ct0 n0 id0 k0 H0 H1. destruct (G _ _ _ _ _ H0 H1) as [ct1 [A [B Ne]]].
+      destruct (R _ _ _ _ _ A B) as [o [Ho X]].
+      assert (N : id0 <> id).
+      { intros ->. destruct (U _ _ _ _ _ _ _ _ _ A B Ec Ep) as [E1 E2]. apply Ne; assumption. }
+      exists o. rewrite (proj1 (close_objs _ _ _ EC) id0 N). auto.
+    + intros c0 ct0 n0 id0 k0 c1 ct1 n' k' H0 H1 H2 H3.
+      destruct (G _ _ _ _ _ H0 H1) as [x [A [B _]]]. destruct (G _ _ _ _ _ H2 H3) as [y [A' [B' _]]]. eauto.
+  - (* session end *)
+    destruct (y_end s c) as [s1|] eqn:E; [|discriminate]. inversion H; subst. clear H.
+    unfold y_end in E. destruct (aget c (s_ctls s)) as [ct|] eqn:Ec; [|discriminate].
+    destruct (close_all (s_rc s) (s_names s) (c_proxies ct)) as [[r' names']|] eqn:ECA; [|discriminate].
+    inversion E; subst. clear E. ysimpl. split; [eapply close_all_oinv; eauto|]. pose proof HL as [R U].
+    assert (K : forall c0 ct0, aget c0 (adel c (s_ctls s)) = Some ct0 -> c0 <> c /\ aget c0 (s_ctls s) = Some ct0).
+    { intros c0 ct0 H0. destruct (Z.eq_dec c0 c) as [->|N]; [rewrite aget_adel_eq in H0; discriminate|].
+      rewrite aget_adel_neq in H0 by assumption. auto. }
+    constructor; ysimpl.
+    + intros c0 ct0 n id k H0 H1. destruct (K _ _ H0) as [N A]. destruct (R _ _ _ _ _ A H1) as [o [Ho X]].
+      exists o. split; [|assumption]. rewrite (close_all_objs _ _ _ _ _ ECA); [assumption|].
+      intros X1. unfold ids_of in X1. apply in_map_iff in X1. destruct X1 as [[n' [id' k']] [E1 X1]]. simpl in E1. subst id'.
+      apply in_sget_nodup in X1; [|apply (yi_nodup _ _ HY _ _ Ec)].
+      destruct (U _ _ _ _ _ _ _ _ _ A H1 Ec X1). contradiction.
+    + intros c0 ct0 n id k c1 ct1 n' k' H0 H1 H2 H3. destruct (K _ _ H0). destruct (K _ _ H2). eauto.
+  - (* late close of a udp proxy *)
+    destruct (aget id (rc_objs (s_rc s))) as [o|] eqn:Ho; [|discriminate].
+    destruct (po_kind o) eqn:EK; try discriminate.
+    destruct (px_close (s_rc s) id) as [r'|] eqn:EC; [|discriminate]. inversion H; subst. ysimpl.
+    split; [eapply oinv_close; eauto|]. eapply (linv_same s); [reflexivity| |exact HL]. ysimpl.
+    intros id0 k0 [o0 [Ho0 [Hk Hc]]]. destruct (Z.eq_dec id0 id) as [->|N].
+    + rewrite Ho in Ho0. inversion Ho0; subst. destruct (proj2 (close_objs _ _ _ EC) _ Ho) as [o' [A B]].
+      exists o'. split; [assumption|]. split; [congruence|]. intros X. exfalso. apply X. congruence.
+    + exists o0. rewrite (proj1 (close_objs _ _ _ EC) id0 N). auto.
+  - destruct (x_step (s_rc s) (XSquat proto port)) as [[r' o]|] eqn:E; [|discriminate]. inversion H; subst. ysimpl.
+    split; [eapply oinv_xstep; eauto|]. eapply (linv_same s); [reflexivity| |exact HL]. ysimpl.
+    cbn [x_step] in E. destruct ((1 <=? port) && rc_probe (s_rc s) proto port); inversion E; subst. auto.
+  - destruct (x_step (s_rc s) (XUnsquat proto port)) as [[r' o]|] eqn:E; [|discriminate]. inversion H; subst. ysimpl.
+    split; [eapply oinv_xstep; eauto|]. eapply (linv_same s); [reflexivity| |exact HL]. ysimpl.
+    cbn [x_step] in E. inversion E; subst. auto.
+Qed.
+
+Lemma full_new : forall maxp ranges, Full maxp (srv_new ranges).
+Proof.
+  intros. split; [apply yinv_new|]. split; [apply oinv_new|]. constructor; simpl; intros; discriminate.
+Qed.
+
+Lemma full_run : forall maxp ops s s', Full maxp s -> y_run maxp ops s = Some s' -> Full maxp s'.
+Proof.
+  induction ops as [|o t IH]; simpl; intros s s' HI H; [inversion H; subst; assumption|].
+  destruct (y_step maxp s o) as [[s1 out]|] eqn:E; [|discriminate].
+  eapply IH; [|eassumption]. eapply full_step; eauto.
+Qed.
+
+(* ---- what the model refuses, precisely ---- *)
+Lemma acquire_none : forall probe ch s n port,
+  pm_acquire probe ch s n port = None ->
+  port = 0 /\
+  ((exists k, ch = Some k /\ zmem k (pm_free s) && probe k = false) \/
+   (ch = None /\ pm_noavail_legal probe (pm_free s) = false)).
+Proof.
+  intros probe ch s n port H. unfold pm_acquire in H.
+  assert (R : pm_random probe ch s n = None ->
+              (exists k, ch = Some k /\ zmem k (pm_free s) && probe k = false) \/
+              (ch = None /\ pm_noavail_legal probe (pm_free s) = false)).
+  { unfold pm_random. destruct ch as [k|].
+    - destruct (zmem k (pm_free s) && probe k) eqn:E; [destruct (k =? 0); discriminate|]. intros _. left. eauto.
+    - destruct (pm_noavail_legal probe (pm_free s)) eqn:E; [discriminate|]. auto. }
+  destruct (port =? 0) eqn:E0.
+  - apply Z.eqb_eq in E0. split; [assumption|]. destruct (rget n (pm_res s)); [|auto].
+    destruct (zmem z (pm_free s) && probe z); [discriminate|auto].
+  - destruct (zmem port (pm_free s)); [destruct (probe port); discriminate|].
+    destruct (uget port (pm_used s)); discriminate.
+Qed.
+
+(* the observed random choice is not one the code could have made in this state *)
+Definition illegal_choice (r : rcst) (q : xreq) : Prop :=
+  xq_port q = 0 /\ exists proto m, (proto = 0 /\ m = rc_tcp r \/ proto = 1 /\ m = rc_udp r) /\
+    ((exists k, xq_choice q = Some k /\ zmem k (pm_free m) && rc_probe r proto k = false) \/
+     (xq_choice q = None /\ pm_noavail_legal (rc_probe r proto) (pm_free m) = false)).
+
+Lemma px_run_none : forall r q, px_run r q = None -> illegal_choice r q.
+Proof.
+  intros r q H. unfold px_run in H. destruct (xq_kind q).
+  - destruct (String.eqb (xq_group q) "").
+    + unfold tcp_run in H.
+      destruct (pm_acquire (rc_probe r 0) (xq_choice q) (rc_tcp r) (xq_name q) (xq_port q)) as [[t' [rp|e]]|] eqn:E.
+      * destruct (xq_lok q); discriminate.
+      * discriminate.
+      * destruct (acquire_none _ _ _ _ _ E) as [P X]. split; [assumption|]. exists 0, (rc_tcp r). auto.
+    + unfold group_listen in H. destruct (sget (xq_group q) (rc_groups r)) as [tg|].
+      * destruct (tg_lns tg).
+        -- destruct (pm_acquire (rc_probe r 0) (xq_choice q) (rc_tcp r) (xq_name q) (xq_port q)) as [[t' [rp|e]]|] eqn:E.
+           ++ destruct (xq_lok q); discriminate.
+           ++ discriminate.
+           ++ destruct (acquire_none _ _ _ _ _ E) as [P X]. split; [assumption|]. exists 0, (rc_tcp r). auto.
+        -- repeat match type of H with
+                  | context [if ?c then _ else _] => destruct c
+                  end; discriminate.
+      * cbn [tg_lns empty_grp] in H.
+        change (rc_probe (rc_set_groups (sset (xq_group q) empty_grp (rc_groups r)) r) 0) with (rc_probe r 0) in H.
+        rsimpl in H.
+        destruct (pm_acquire (rc_probe r 0) (xq_choice q) (rc_tcp r) (xq_name q) (xq_port q)) as [[t' [rp|e]]|] eqn:E.
+        -- destruct (xq_lok q); discriminate.
+        -- discriminate.
+        -- destruct (acquire_none _ _ _ _ _ E) as [P X]. split; [assumption|]. exists 0, (rc_tcp r). auto.
+  - unfold udp_run in H.
+    destruct (pm_acquire (rc_probe r 1) (xq_choice q) (rc_udp r) (xq_name q) (xq_port q)) as [[t' [rp|e]]|] eqn:E.
+    + destruct (xq_lok q); discriminate.
+    + discriminate.
+    + destruct (acquire_none _ _ _ _ _ E) as [P X]. split; [assumption|]. exists 1, (rc_udp r). auto.
+  - discriminate.
+Qed.
+
+(* the only steps the model refuses in a reachable state: an operation on a session that does not exist, a
+   login under a session id in use, a "late close" of something that is not a udp proxy object, an oracle
+   value the code cannot produce (random choice), a squatter binding a port that is busy *)
+Definition refusal_reason (s : srv) (o : yop) : Prop :=
+  match o with
+  | YLogin c => aget c (s_ctls s) <> None
+  | YNewProxy c q => aget c (s_ctls s) = None \/ illegal_choice (s_rc s) q
+  | YCloseProxy c _ => aget c (s_ctls s) = None
+  | YSessionEnd c => aget c (s_ctls s) = None
+  | YLateClose id => ~ exists o, aget id (rc_objs (s_rc s)) = Some o /\ po_kind o = KUdp
+  | YSquat proto port => (1 <=? port) && rc_probe (s_rc s) proto port = false
+  | YUnsquat _ _ => False
+  end.
+
+Theorem progress_full : forall maxp s o, Full maxp s -> y_step maxp s o = None -> refusal_reason s o.
+Proof.
+  intros maxp s o [HY [HO HL]] H. destruct o as [c|c q|c n|c|id|proto port|proto port]; cbn [y_step refusal_reason] in *.
+  - destruct (aget c (s_ctls s)); [discriminate|discriminate].
+  - destruct (y_register maxp s c q) as [[s1 r]|] eqn:E; [discriminate|]. unfold y_register in E.
+    destruct (aget c (s_ctls s)) as [ct|]; [|auto]. right.
+    destruct ((0 <? maxp) && (maxp <? c_used ct + pweight (xq_kind q))); [discriminate|].
+    destruct (sget (xq_name q) (s_names s)); [discriminate|].
+    destruct (px_run (s_rc s) q) as [[r' [id real|e]]|] eqn:ER; try discriminate. apply px_run_none. assumption.
+  - destruct (y_close maxp s c n) as [s1|] eqn:E; [discriminate|]. unfold y_close in E.
+    destruct (aget c (s_ctls s)) as [ct|] eqn:Ec; [|reflexivity]. exfalso.
+    destruct (sget n (c_proxies ct)) as [[id k]|] eqn:Ep; [|discriminate].
+    destruct (px_close (s_rc s) id) as [r'|] eqn:EC; [discriminate|].
+    destruct (l_ref _ HL _ _ _ _ _ Ec Ep) as [o [Ho [Hk Hc]]].
+    eapply px_close_progress; [exact HO|exact Ho| |exact EC]. rewrite Hk. assumption.
+  - destruct (y_end s c) as [s1|] eqn:E; [discriminate|]. unfold y_end in E.
+    destruct (aget c (s_ctls s)) as [ct|] eqn:Ec; [|reflexivity]. exfalso.
+    destruct (close_all (s_rc s) (s_names s) (c_proxies ct)) as [[r' names']|] eqn:ECA; [discriminate|].
+    eapply close_all_progress; [exact HO| | |exact ECA].
+    + apply ids_nodup; [apply (yi_nodup _ _ HY _ _ Ec)|].
+      intros n n' id k k' A B. destruct (l_uniq _ HL _ _ _ _ _ _ _ _ _ Ec A Ec B). assumption.
+    + intros n id k X. apply in_sget_nodup in X; [|apply (yi_nodup _ _ HY _ _ Ec)]. eapply (l_ref _ HL); eauto.
+  - intros [o [Ho Hk]]. rewrite Ho, Hk in H.
+    destruct (px_close (s_rc s) id) as [r'|] eqn:EC; [discriminate|].
+    eapply px_close_progress; [exact HO|exact Ho| |exact EC]. intros X. contradiction.
+  - cbn [x_step] in H. destruct ((1 <=? port) && rc_probe (s_rc s) proto port); [discriminate|reflexivity].
+  - cbn [x_step] in H. discriminate.
+Qed.
+
+Theorem progress : forall maxp ranges ops s o,
+  y_run maxp ops (srv_new ranges) = Some s -> y_step maxp s o = None -> refusal_reason s o.
+Proof.
+  intros maxp ranges ops s o H. apply progress_full. eapply full_run; [apply full_new|exact H].
+Qed.
+
+(* reachable states satisfy the ownership invariant; the reported address of every successful
+   registration, later group members included, is bound *)
+Theorem reachable_oinv : forall maxp ranges ops s, y_run maxp ops (srv_new ranges) = Some s -> OInv (s_rc s).
+Proof. intros maxp ranges ops s H. apply (full_run _ _ _ _ (full_new maxp ranges) H). Qed.
+
+Theorem registered_addr_is_bound : forall maxp ranges ops s c q s' id real,
+  y_run maxp ops (srv_new ranges) = Some s ->
+  y_register maxp s c q = Some (s', YOk id real) ->
+  match xq_kind q with
+  | KTcp => In (0, real) (rc_bound (s_rc s'))
+  | KUdp => In (1, real) (rc_bound (s_rc s'))
+  | KOther => True
+  end.
+Proof.
+  intros maxp ranges ops s c q s' id real HR H. pose proof (reachable_oinv _ _ _ _ HR) as HO.
+  unfold y_register in H. destruct (aget c (s_ctls s)) as [ct|]; [|discriminate].
+  destruct ((0 <? maxp) && (maxp <? c_used ct + pweight (xq_kind q))); [discriminate|].
+  destruct (sget (xq_name q) (s_names s)); [discriminate|].
+  destruct (px_run (s_rc s) q) as [[r' [id' real'|e]]|] eqn:ER; try discriminate.
+  inversion H; subst. cbn [s_rc]. eapply reported_addr_is_bound_addr_full; eauto.
+Qed.
+
+(* live plain proxies and live groups hold pairwise distinct, bound ports *)
+Theorem owners_hold_distinct_bound_ports : forall maxp ranges ops s,
+  y_run maxp ops (srv_new ranges) = Some s ->
+  (forall k p, claim (s_rc s) k p -> In (0, p) (rc_bound (s_rc s))) /\
+  (forall k k' p, claim (s_rc s) k p -> claim (s_rc s) k' p -> k = k').
+Proof.
+  intros maxp ranges ops s H. pose proof (reachable_oinv _ _ _ _ H) as [F B E M]. split; assumption.
+Qed.
